@@ -55,6 +55,7 @@ type Fault struct {
 	Partial  int    `json:"partial"`
 	Fired    bool   `json:"-"`
 	FiredOn  string `json:"-"`
+	FiredAt  int    `json:"-"`
 }
 
 var errInjected = errors.New("injected transport failure")
@@ -139,16 +140,16 @@ func (e *Endpoint) Read(p []byte) (int, error) {
 	if flt != nil && flt.Op == op {
 		switch flt.Kind {
 		case "read-err":
-			flt.Fired, flt.FiredOn = true, "read"
+			flt.Fired, flt.FiredOn, flt.FiredAt = true, "read", n.D.Step
 			e.failed = errInjected
 			n.Stats.ReadErr++
 			e.wakeAll()
 			return 0, errInjected
 		case "local-close":
-			flt.Fired, flt.FiredOn = true, "read"
+			flt.Fired, flt.FiredOn, flt.FiredAt = true, "read", n.D.Step
 			e.doClose()
 		case "peer-close":
-			flt.Fired, flt.FiredOn = true, "read"
+			flt.Fired, flt.FiredOn, flt.FiredAt = true, "read", n.D.Step
 			e.Peer.doClose()
 		}
 	}
@@ -202,7 +203,7 @@ func (e *Endpoint) Read(p []byte) (int, error) {
 			}
 			var err error
 			if flt != nil && flt.Op == op && flt.Kind == "read-err-data" && !flt.Fired {
-				flt.Fired, flt.FiredOn = true, "read"
+				flt.Fired, flt.FiredOn, flt.FiredAt = true, "read", n.D.Step
 				e.failed = errInjected
 				err = errInjected
 				n.Stats.ReadErrWithData++
@@ -228,7 +229,7 @@ func (e *Endpoint) Read(p []byte) (int, error) {
 		if flt != nil && flt.Op == op && flt.Kind == "read-err-data" && !flt.Fired {
 			// no data to attach the error to: deliver it alone
 			n.RT.Mu.Unlock()
-			flt.Fired, flt.FiredOn = true, "read"
+			flt.Fired, flt.FiredOn, flt.FiredAt = true, "read", n.D.Step
 			e.failed = errInjected
 			n.Stats.ReadErr++
 			e.wakeAll()
@@ -293,10 +294,10 @@ func (e *Endpoint) writeBytes(t *verifsim.Task, op int, p []byte) (int, error) {
 				limit = 0
 			}
 		case "local-close":
-			flt.Fired, flt.FiredOn = true, "write"
+			flt.Fired, flt.FiredOn, flt.FiredAt = true, "write", n.D.Step
 			e.doClose()
 		case "peer-close":
-			flt.Fired, flt.FiredOn = true, "write"
+			flt.Fired, flt.FiredOn, flt.FiredAt = true, "write", n.D.Step
 			e.Peer.doClose()
 		}
 	}
@@ -322,7 +323,7 @@ func (e *Endpoint) writeBytes(t *verifsim.Task, op int, p []byte) (int, error) {
 		if limit >= 0 {
 			// injected write error after `limit` bytes
 			n.RT.Mu.Unlock()
-			flt.Fired, flt.FiredOn = true, "write"
+			flt.Fired, flt.FiredOn, flt.FiredAt = true, "write", n.D.Step
 			if limit > 0 {
 				e.accept(p[:limit])
 				total += limit
@@ -535,6 +536,15 @@ func (l *Listener) Close() error {
 		t.Park("listener.close " + l.Name)
 	}
 	l.closed = true
+	// connections that were never accepted are reset, as a real listener does
+	for _, c := range l.queue {
+		if e, ok := c.(*Endpoint); ok {
+			e.doClose()
+		} else {
+			_ = c.Close()
+		}
+	}
+	l.queue = nil
 	l.wake()
 	return nil
 }
